@@ -181,3 +181,80 @@ def rng_stub_factory(log):
             return Gen(seed)
 
     return RandomMod
+
+
+# ---------------------------------------------------------------------------------------
+# scipy.linalg.eigh / eigvalsh for 3x3 symmetric input (diagnostics)
+
+
+def lower_completed(matrix):
+    m = np.asarray(matrix, dtype=object)
+    out = np.empty((3, 3), dtype=object)
+    for i in range(3):
+        for j in range(3):
+            out[i, j] = R(m[i, j] if i >= j else m[j, i])  # LAPACK (lower=True) never reads the upper triangle
+    return out.view(SArr)
+
+
+class EigLa:
+    """Stands in for `scipy.linalg` in pydrex.diagnostics.
+
+    eigh contract: for the symmetric completion S of the *lower triangle* of the argument it returns
+    ascending real eigenvalues l and an orthogonal V (rotation R(q) x optional reflection; sign and, for
+    equal eigenvalues, choice of eigenvectors arbitrary) with S V = V diag(l). eigvalsh: the same l.
+    """
+
+    def __init__(self):
+        self.calls = []
+
+    def _decomp(self, matrix):
+        from . import quat
+
+        S = lower_completed(matrix)
+        c = sym.ctx()
+        n = len(self.calls)
+        lam = [real(f"ev!{n}!{i}") for i in range(3)]
+        q, unit = quat.quat(f"evq!{n}")
+        sg = real(f"evs!{n}")
+        c.assume(unit)
+        c.assume(z3.Or((sg == 1).z3(), (sg == -1).z3()))
+        V = quat.rotmat(q)
+        D = sarr(np.eye(3))
+        D[2, 2] = sg
+        V = V @ D
+        c.assume(z3.And((lam[0] <= lam[1]).z3(), (lam[1] <= lam[2]).z3()))
+        SV = S @ V
+        for i in range(3):
+            for j in range(3):
+                c.axiom((SV[i, j] == V[i, j] * lam[j]).z3())
+        # consequences of the contract that help the solver (Vieta relations)
+        tr = S[0, 0] + S[1, 1] + S[2, 2]
+        c.axiom((lam[0] + lam[1] + lam[2] == tr).z3())
+        rec = dict(arg=matrix, S=S, lam=lam, V=V, q=q, sg=sg, SV=SV)
+        self.calls.append(rec)
+        return rec
+
+    def eigh(self, matrix, driver=None, **kw):
+        if not has_sym(matrix):
+            import scipy.linalg as la
+
+            return la.eigh(matrix, driver=driver, **kw)
+        r = self._decomp(matrix)
+        return sarr(np.array(r["lam"], dtype=object)), r["V"]
+
+    def eigvalsh(self, matrix, **kw):
+        if not has_sym(matrix):
+            import scipy.linalg as la
+
+            return la.eigvalsh(matrix, **kw)
+        r = self._decomp(matrix)
+        return sarr(np.array(r["lam"], dtype=object))
+
+    def norm(self, x, axis=None, **kw):
+        from .sarr import _f_norm
+
+        if not has_sym(x):
+            import scipy.linalg as la
+
+            return la.norm(x, axis=axis, **kw)
+        return _f_norm(x, axis=axis)
